@@ -362,14 +362,14 @@ def mi_harness(e):
     for k in list(order) + sorted(C):
         inst0 = C[k](**_values(G.MI_FIELDS[k], 1, counter))
         list(inst0.get_child_nodes()); list(inst0.iter_child_fields()); list(inst0.get_properties()); inst0.children  # noqa: E702
-    target = e.pick(["MFunc", "MEmpty", "MOverride", "MNamed", "MBodied", "MQuoted", "MAnnBase", "MRich"], "queried_class")
+    target = e.pick(["MFunc", "MEmpty", "MOverride", "MNamed", "MBodied", "MQuoted", "MAnnBase", "MRich", "MOrigin"], "queried_class")
     fields = G.MI_FIELDS[target]
     part = e.pick(["children", "properties"], "part")
     variant = e.choice(4, "instance_variant") if part == "children" else 1
     kw = _values(fields, variant, counter)
     cls = C[target]
     node = cls(**kw)
-    defaults = {"label": 5 if target == "MOverride" else 0, "flag": 1, "q": 0, "p": 1, "aflag": 0, "aname": 0, "aweight": 0}
+    defaults = {"label": 5 if target == "MOverride" else 0, "flag": 1, "q": 0, "p": 1, "aflag": 0, "aname": 0, "aweight": 0, "tail": 3}
     scenario: dict[str, Any] = {"classes": "MNamed(name_kid, label) MBodied(body, flag!compare) MFunc(MNamed, MBodied) MEmpty(MNamed) MOverride(MNamed: label!compare, name_kid) MQuoted(quoted and evaluated annotations interleaved) MAnnBase(VBase, plain base annotating aname / atail)", "used_first": order, "queried_class": target, "variant": variant, "part": part}
     sort_keys = e.bool("sort_keys")
     if part == "children":
